@@ -138,3 +138,12 @@ def disp_grid(tier):
             for p in (b'', b'\x66', b'\x64'):
                 b = p + h + struct.pack('<I', v) + b'\x11\x22\x33\x44\x55'
                 yield b[:16], ((9, h[0]), p.hex(), 0, 5, None, 'dispgrid')
+    # a SIB byte without base register (mod 00, base 101b: disp32 follows) for every scale and three index registers, with
+    # displacements that would also fit a byte: the disp32 form is the only encoding of [index*scale+disp]
+    for op in (b'\x8b', b'\x89', b'\x8d', b'\x00'):
+        for scale in range(4):
+            for index in (0, 1, 6):
+                sib = (scale << 6) | (index << 3) | 5
+                for v in (8, 0x7f, 0x80, 0xfffffff8, 0xffffff80, 0x100, 1):
+                    b = op + bytes([0x0c, sib]) + struct.pack('<I', v) + b'\x11\x22\x33\x44\x55'
+                    yield b[:16], ((9, op[0]), '', 0, 4, sib, 'nobase-sib')
